@@ -58,7 +58,7 @@ func (d DevAddr) String() string {
 
 // DevAddrFromString converts a hex representation to a DevAddr value
 func DevAddrFromString(devAddrStr string) (DevAddr, error) {
-	val, err := strconv.ParseInt(devAddrStr, 16, 32)
+	val, err := strconv.ParseUint(devAddrStr, 16, 32)
 	if err != nil {
 		return DevAddr{}, err
 	}
